@@ -183,3 +183,8 @@ Print Assumptions C09_enabled_indexes_exact.
 Theorem C09_enabled_indexes_nodup : forall fs, NoDup (enabled_fields_indexes fs).
 Proof. exact Proofs.enabled_indexes_nodup. Qed.
 Print Assumptions C09_enabled_indexes_nodup.
+
+From Coq Require Sorted.
+Theorem C09_enabled_indexes_sorted : forall fs, Sorted.StronglySorted lt (enabled_fields_indexes fs).
+Proof. exact Proofs.enabled_indexes_sorted. Qed.
+Print Assumptions C09_enabled_indexes_sorted.
